@@ -140,6 +140,14 @@ func (f *Frame) load(st *State, l Loc) *Term {
 			if pv, ok2 := l.obj.(*types.Var); ok2 && pv.Parent() == pv.Pkg().Scope() {
 				return f.load(st, LGlobal{name: pv.Pkg().Path() + "." + pv.Name(), typ: pv.Type()})
 			}
+			if f.inSpec {
+				// a contract clause evaluated at a return site that precedes the local's declaration: the variable
+				// does not exist there, any value stands for it (the clause has to hold whatever it is)
+				if _, isVar := l.obj.(*types.Var); isVar {
+					nv := c.fresh("undeclared!"+l.obj.Name(), c.sortOf(l.obj.Type()))
+					return nv
+				}
+			}
 			panic(unsupported{fmt.Sprintf("unbound variable %s", l.obj.Name())})
 		}
 		if v.OnHeap {
